@@ -213,9 +213,9 @@ func (l *LookupEdgeAdjOut) Process(ctx context.Context, man gdbi.Manager, in gdb
 		for t := range in {
 			if t.IsSignal() {
 				queryChan <- gdbi.ElementLookup{Ref: t}
-			} else {
+			} else if cur := t.GetCurrent(); cur != nil {
 				queryChan <- gdbi.ElementLookup{
-					ID:  t.GetCurrent().To,
+					ID:  cur.To,
 					Ref: t,
 				}
 			}
@@ -292,9 +292,9 @@ func (l *LookupEdgeAdjIn) Process(ctx context.Context, man gdbi.Manager, in gdbi
 		for t := range in {
 			if t.IsSignal() {
 				queryChan <- gdbi.ElementLookup{Ref: t}
-			} else {
+			} else if cur := t.GetCurrent(); cur != nil {
 				queryChan <- gdbi.ElementLookup{
-					ID:  t.GetCurrent().From,
+					ID:  cur.From,
 					Ref: t,
 				}
 			}
@@ -474,6 +474,11 @@ func (r *Unwind) Process(ctx context.Context, man gdbi.Manager, in gdbi.InPipe, 
 				out <- t
 				continue
 			}
+			if t.GetCurrent() == nil {
+				// nothing to unwind in a row without an element
+				out <- t
+				continue
+			}
 			v := jsonpath.TravelerPathLookup(t, r.Field)
 			if a, ok := v.([]interface{}); ok {
 				cur := t.GetCurrent()
@@ -543,7 +548,7 @@ func (h *HasLabel) Process(ctx context.Context, man gdbi.Manager, in gdbi.InPipe
 				out <- t
 				continue
 			}
-			if contains(labels, t.GetCurrent().Label) {
+			if cur := t.GetCurrent(); cur != nil && contains(labels, cur.Label) {
 				out <- t
 			}
 		}
